@@ -330,8 +330,14 @@ func libServeGoroutines() []string {
 	pprof.Lookup("goroutine").WriteTo(&sb, 2)
 	var out []string
 	for _, g := range strings.Split(sb.String(), "\n\n") {
-		if strings.Contains(g, "server4.(*Server).Serve") || strings.Contains(g, "server6.(*Server).Serve") {
-			out = append(out, strings.SplitN(g, "\n", 2)[0])
+		// goroutines that are INSIDE Serve: a frame of that function.  (Handler goroutines carry the line "created by
+		// ...(*Server).Serve in goroutine N"; a released handler that has not been scheduled yet on a loaded machine is
+		// not a goroutine Serve left behind.)
+		for _, ln := range strings.Split(g, "\n") {
+			if strings.HasPrefix(ln, "github.com/insomniacslk/dhcp/dhcpv") && (strings.Contains(ln, "server4.(*Server).Serve(") || strings.Contains(ln, "server6.(*Server).Serve(")) {
+				out = append(out, strings.SplitN(g, "\n", 2)[0])
+				break
+			}
 		}
 	}
 	return out
